@@ -127,6 +127,17 @@ CLAIMED = {
         engine="crosshair", design="4/C14",
         note="CrossHair 0.0.110 + z3; values modelled as ints/bools; get_fluid stubbed; 'Not confirmed' is reported as "
              "inconclusive, never as success"),
+    "C19": dict(
+        text="The real library code is executed on symbolic queries: every tabulated property of every library fluid through "
+             "the real FluidPropertyInterExtra.get_at_value and scipy's real interp1d._evaluate - each path is one table "
+             "interval or extrapolation side, and z3 proves the value to be the linear interpolant of the tabulated points; "
+             "the integral methods of all property classes (antisymmetry, additivity, consistency, all argument kinds), the "
+             "Linear / Constant / Polynominal / Sutherland formulas, the mixture rules (fractions sum to one, molar<->mass "
+             "inverse, bounds; NRA) and PumpStdType.get_pressure with symbolic coefficients (>= 0, 0 for reverse flow, "
+             "polynomial otherwise, array == scalar). Data identities (compressibility slope, std-type parameters) by evaluation.",
+        technique="symbolic execution (fork-complete over table intervals) of the real library code + z3 (LRA/NRA); data "
+                  "identities by evaluation; counterexamples replayed with floats",
+        design="4/C19"),
 }
 
 NOT_APPLICABLE = {
